@@ -142,20 +142,57 @@ def fam_response(w: World) -> None:
                   f'{str(reply_text)[:120]!r}', exc=type(e).__name__, **ctx)
 
 
+class OwnErrorBase(pjrpc.exceptions.JsonRpcError):
+    """The base of an error hierarchy of the caller's own; it registers no code."""
+
+
+def _valid_batch_response(doc: Any) -> Any:
+    """None if doc is something a batch request can be answered with, else the reason."""
+    if isinstance(doc, list):
+        for el in doc:
+            why = R.valid_response(el)
+            if why:
+                return f'element: {why}'
+        return None
+    why = R.valid_response(doc)
+    if why:
+        return why
+    if 'error' not in doc or doc.get('id') is not None:
+        return 'an object answering a batch must be an error object with a null id'
+    return None
+
+
+def _valid_batch_request(doc: Any) -> Any:
+    if not isinstance(doc, list):
+        return 'a batch request is an array'
+    if not doc:
+        return 'a batch request is not empty'
+    for el in doc:
+        if not R.valid_request(el):
+            return 'element is not a valid request object'
+    return None
+
+
 def direct_decode(w: World, doc: Any, leg: str, ctx: Dict[str, Any]) -> None:
     """Feed the message that was in flight to each deserialiser directly (what custom transports do)."""
     from pjrpc.common.exceptions import JsonRpcError as JE
     targets: List[Tuple[str, Any, Any, Any]] = []
     if leg == 'response':
         targets.append(('Response.from_json', pjrpc.Response.from_json, doc, R.valid_response))
-        targets.append(('BatchResponse.from_json', pjrpc.BatchResponse.from_json, doc, None))
+        targets.append(('BatchResponse.from_json', pjrpc.BatchResponse.from_json, doc, _valid_batch_response))
+        # the same with an error base class of the caller's own (a hierarchy that registers no typed errors)
+        targets.append(('Response.from_json[error_cls]',
+                        lambda d: pjrpc.Response.from_json(d, error_cls=OwnErrorBase), doc, R.valid_response))
+        targets.append(('BatchResponse.from_json[error_cls]',
+                        lambda d: pjrpc.BatchResponse.from_json(d, error_cls=OwnErrorBase), doc, _valid_batch_response))
         for el in (doc if isinstance(doc, list) else [doc]):
             if isinstance(el, dict) and 'error' in el:
                 targets.append(('JsonRpcError.from_json', JE.from_json, el['error'], R.valid_error))
+                targets.append(('OwnErrorBase.from_json', OwnErrorBase.from_json, el['error'], R.valid_error))
     else:
         targets.append(('Request.from_json', pjrpc.Request.from_json, doc,
                         lambda d: None if R.valid_request(d) else 'not a valid request object'))
-        targets.append(('BatchRequest.from_json', pjrpc.BatchRequest.from_json, doc, None))
+        targets.append(('BatchRequest.from_json', pjrpc.BatchRequest.from_json, doc, _valid_batch_request))
     for name, fn, arg, validator in targets:
         try:
             fn(arg)
